@@ -78,6 +78,11 @@ type ELBody struct {
 	LossPermil  int         `json:"loss_permil"`
 	Restarts    []ELRestart `json:"restarts,omitempty"`
 	MaxSteps    int         `json:"max_steps"`
+	// Script, if present, replaces the PRNG for the first len(Script) decisions of the driver (which
+	// event happens next, and whether a delivered message is lost instead): value = 2*choice + lost.
+	// A failing run reports the decisions it took, so that the replay file carries the schedule
+	// itself and the minimiser can shorten it.
+	Script []int `json:"script,omitempty"`
 }
 
 func genElection(prop string, seed uint64, tier string) *Scenario {
@@ -252,6 +257,8 @@ type elRun struct {
 	tasks   int
 	rr      *ssched.Rand
 	steps   int
+	si      int   // next script entry
+	trace   []int // decisions taken
 }
 
 func elHost(i int) string { return fmt.Sprintf("127.0.0.1:%d", 5210+i) }
@@ -870,17 +877,38 @@ func runElection(w *World) {
 			idle = 0
 			step++
 			run.steps++
-			x := run.rr.Intn(total)
+			scripted := run.si < len(body.Script)
+			var x int
+			lost := false
+			if scripted {
+				v := body.Script[run.si]
+				run.si++
+				if v < 0 {
+					v = -v
+				}
+				x, lost = (v/2)%total, v%2 == 1
+			} else {
+				x = run.rr.Intn(total)
+			}
 			if x < len(startable) {
+				run.trace = append(run.trace, 2*x)
 				k := startable[x]
 				started[k] = true
 				run.candidate(run.incs[body.Cands[k].Member], body.Cands[k].Attempts)
 				continue
 			}
+			if !scripted {
+				lost = run.rr.Chance(body.LossPermil)
+			}
+			if lost {
+				run.trace = append(run.trace, 2*x+1)
+			} else {
+				run.trace = append(run.trace, 2*x)
+			}
 			k := deliverable[x-len(startable)]
 			m := run.pending[k]
 			run.pending = append(run.pending[:k], run.pending[k+1:]...)
-			run.deliver(m, run.rr.Chance(body.LossPermil))
+			run.deliver(m, lost)
 		}
 		// let the candidacies end: whatever is still outstanding is lost
 		for guard := 0; guard < 2000 && run.done < run.tasks && w.res.HarnessErr == ""; guard++ {
@@ -926,6 +954,9 @@ func runElection(w *World) {
 	}
 	sort.Strings(sig)
 	w.res.StateSig = strings.Join(sig, ",")
+	if len(w.res.Violations) > 0 && len(body.Script) == 0 {
+		w.res.Sample = map[string]any{"script": run.trace}
+	}
 	w.res.Nontrivial = w.res.Probes["el_proposals_accepted"] > 0
 }
 
